@@ -150,11 +150,23 @@ CLAIMED = {
    note='Trusted: rustc MIR, extractor, expression reconstruction and the polynomial normaliser (rules/poly.py); bytecount::count counts occurrences in the given slice.',
    technique='static analysis: writer/reader agreement with symbolic (polynomial) normalisation of index arithmetic over rustc MIR',
    ref='DESIGN.md section 2, C04'),
+
+ 'C05': dict(level='other',
+   text='One clause group decided by def-use analysis of FMIndexable::backward_search (roles of the mutable variables are identified '
+        'from the result aggregates, not from names): (LF-1) the interval of the longest matching suffix is saved (pl = l, pr = r) '
+        'before the LF step; l := less(a) + (occ(l - 1, a) on the edge l > 0, else 0) and r := less(a) + occ(r, a) - 1, compared as '
+        'polynomials so algebraic rewrites are accepted; an empty interval (l > r) clears the complete flag and leaves the loop '
+        'without counting the symbol, otherwise matched += 1; the result is Complete{l, r + 1} / Partial({pl, pr + 1}, matched) / '
+        'Absent selected by (matched > 0, complete); Interval::occ enumerates exactly lower..upper through the suffix array. '
+        'Exactness of the interval for every text/pattern (which rests on Occ/less being exact) is NOT decided; the ownership clause '
+        '(owned/borrowed/Arc components) holds by parametricity of the single blanket impl.',
+   note='Trusted: rustc MIR, extractor, expression reconstruction and polynomial normaliser.',
+   technique='static analysis: def-use / guard-dominance shape rules with symbolic normalisation of the LF-step arithmetic over rustc MIR',
+   ref='DESIGN.md section 2, C05'),
 }
 
 NOT_BUILT = 'rule not built yet (see DESIGN.md section 6)'
 NA = {
- 'C05': 'not applicable to static analysis: interval exactness is arithmetic over Occ/less; the ownership clause holds by parametricity of the single blanket impl and cannot be broken by a compiling edit (DESIGN.md C05)',
 }
 
 def main():
